@@ -233,10 +233,15 @@ class FakeTransport(asyncio.DatagramTransport):
         self.net.sent(self, bytes(data), addr)
 
     def close(self) -> None:
-        self.closed = True
+        if not self.closed:
+            self.closed = True
+            self.loop.call_soon(self._call_connection_lost, None)  # as asyncio's selector datagram transport does
 
     def abort(self) -> None:
-        self.closed = True
+        self.close()
+
+    def _call_connection_lost(self, exc: Optional[BaseException]) -> None:
+        self.protocol.connection_lost(exc)
 
     def is_closing(self) -> bool:
         return self.closed
